@@ -7,6 +7,7 @@ import (
 	"compress/gzip"
 	"context"
 	"fmt"
+	"io"
 	"net/http"
 	"net/http/httptest"
 	"net/url"
@@ -40,6 +41,8 @@ type Emu struct {
 	// Inline: serve on the calling goroutine (needed when a scheduler identifies workers by goroutine; such
 	// checks detect hangs themselves).
 	Inline bool
+	// NoLength: request bodies are sent without a known length (as with chunked transfer encoding).
+	NoLength bool
 }
 
 func NewEmu(store, dir string) (*Emu, error) { return NewEmuWrap(store, dir, nil) }
@@ -104,7 +107,12 @@ func (e *Emu) DoCtx(ctx context.Context, r *Req) (resp *Resp) {
 	if e.Hook != nil {
 		defer func() { e.Hook(r, resp) }()
 	}
-	req, err := http.NewRequestWithContext(ctx, r.Method, "http://"+Host+r.Path, bytes.NewReader(r.Body.B()))
+	var body io.Reader = bytes.NewReader(r.Body.B())
+	if e.NoLength && len(r.Body) > 0 {
+		// a body of unknown length (chunked transfer encoding on the wire): ContentLength is -1 for the handler
+		body = io.MultiReader(body)
+	}
+	req, err := http.NewRequestWithContext(ctx, r.Method, "http://"+Host+r.Path, body)
 	if err != nil {
 		// not representable as an HTTP request: the harness's fault, never a finding
 		panic("HARNESS: cannot build request " + r.Method + " " + r.Path + ": " + err.Error())
